@@ -2,7 +2,7 @@
 From XcpModel Require Import Base Meta.
 From XcpProofs Require Import MetaProofs.
 From XcpModel Require Import Extracted.
-From XcpProofs Require Import ExtractedOk.
+From XcpProofs Require Import XMeta.
 
 (* same type, permission bits limited by the umask, same device number, for
    all kinds, modes, umasks, majors and minors *)
@@ -45,3 +45,23 @@ Print Assumptions C14_classification.
 Print Assumptions C14_replace_unless_noclobber.
 Print Assumptions C14_src_device_number_is_rdev.
 Print Assumptions C14_src_special_arms.
+
+(* ---- further glue on this property's path, pinned token for token (an edit re-opens the obligation; the run then
+   looks for a failing input) ---- *)
+From XcpPins Require Import Pin_linux_copy_node Pin_common_is_same_file Pin_parfile_copy_worker Pin_parblock_dispatch_worker Pin_main_main.
+From XcpProofs Require Import PinnedSource.
+Theorem C14_src_pin_linux_copy_node : pin_unchanged name_linux_copy_node.
+Proof. exact pin_linux_copy_node. Qed.
+Theorem C14_src_pin_common_is_same_file : pin_unchanged name_common_is_same_file.
+Proof. exact pin_common_is_same_file. Qed.
+Theorem C14_src_pin_parfile_copy_worker : pin_unchanged name_parfile_copy_worker.
+Proof. exact pin_parfile_copy_worker. Qed.
+Theorem C14_src_pin_parblock_dispatch_worker : pin_unchanged name_parblock_dispatch_worker.
+Proof. exact pin_parblock_dispatch_worker. Qed.
+Theorem C14_src_pin_main_main : pin_unchanged name_main_main.
+Proof. exact pin_main_main. Qed.
+Print Assumptions C14_src_pin_linux_copy_node.
+Print Assumptions C14_src_pin_common_is_same_file.
+Print Assumptions C14_src_pin_parfile_copy_worker.
+Print Assumptions C14_src_pin_parblock_dispatch_worker.
+Print Assumptions C14_src_pin_main_main.
